@@ -36,7 +36,9 @@ contract(f"{M}:encode_params", params={"params": "list[tuple[int,bytes]]"}, retu
 # ------------------------------------------------------------------ chunks
 klass(f"{M}:Chunk", fields={"flags": "int", "body": "bytes"})
 klass(f"{M}:DataChunk", fields={"flags": "int", "tsn": "int", "stream_id": "int", "stream_seq": "int",
-                                "protocol": "int", "user_data": "bytes"})
+                                "protocol": "int", "user_data": "bytes",
+                                # send-side bookkeeping attached by RTCSctpTransport._send
+                                "_abandoned": "bool", "_acked": "bool"})
 klass(f"{M}:SackChunk", fields={"flags": "int", "gaps": "list[tuple[int,int]]", "duplicates": "list[int]",
                                 "cumulative_tsn": "int", "advertised_rwnd": "int"})
 klass(f"{M}:ForwardTsnChunk", fields={"flags": "int", "streams": "list[tuple[int,int]]", "cumulative_tsn": "int"})
